@@ -1,4 +1,5 @@
 import Webp.Proofs.ContainerViews
+import Webp.Proofs.ContainerSim
 import Webp.Proofs.ContainerSamples
 /-
   C16 — "Header queries agree with what a full decode returns" (container level).
@@ -93,6 +94,77 @@ theorem anim_config_is_canvas :
     (Config.decodeTarget Samples.anim2).toOption.map (Option.map (fun t => (t.width, t.height)))
       = some (some (4, 5)) := by decide +kernel
 
+/-- The container-level views agree.  `container.Parser` (behind `GetFeatures`/`DecodeConfig`/
+    `Decode`) and `mux.Demuxer` (behind `mux.NewDemuxer` and `animation.DecodeBytes`) were written
+    separately; **whenever both accept a byte string** they agree on the animation flag, the
+    canvas size, the number of frames and the loop count.  No well-formedness hypothesis is
+    needed: the proof is a lock-step simulation of the two chunk walks, and every structural
+    difference between the readers shows up as one of them *rejecting* the input
+    (`views_differ_examples`), never as two different successful answers.
+    (Loop count: both default to 0 and both honour an ANIM chunk only when the VP8X animation
+    flag is set — this is the repaired behaviour; on the pinned tree the parser defaulted to 1.) -/
+theorem views_agree {b : Bytes} {p : Parser.State} {d : Demux.State}
+    (hp : Parser.parse b = .ok p) (hd : Demux.parseWith true b = .ok d) :
+    p.features.hasAnim = d.features.hasAnimation ∧
+    p.features.canvasWidth = d.features.width ∧ p.features.canvasHeight = d.features.height ∧
+    p.frames.length = d.frames.length ∧ p.features.loopCount = d.loopCount :=
+  views_agree_core hp hd
+
+/-- the public header queries against the demuxer, for files with at least one frame -/
+theorem getFeatures_agrees_with_demux {b : Bytes} {ft : Config.PubFeatures} {d : Demux.State}
+    (hf : Config.getFeatures b = .ok ft) (hd : Demux.parseWith true b = .ok d) :
+    ft.hasAnimation = d.features.hasAnimation ∧ ft.frameCount = d.frames.length ∧
+    ft.loopCount = d.loopCount ∧
+    (ft.hasAnimation = true → ft.width = d.features.width ∧ ft.height = d.features.height) := by
+  unfold Config.getFeatures at hf
+  cases hp : parse b with
+  | err e => rw [hp] at hf; cases hf
+  | panic => rw [hp] at hf; cases hf
+  | hang => rw [hp] at hf; cases hf
+  | ok p =>
+    rw [hp, Res.bind_ok] at hf
+    obtain ⟨a1, a2, a3, a4, a5⟩ := views_agree_core hp hd
+    split_ifs at hf
+    injection hf with hf
+    subst hf
+    refine ⟨a1, a4, a5, fun ha => ?_⟩
+    obtain ⟨_, w, h⟩ := parse_anim hp ha
+    exact ⟨w.trans a2, h.trans a3⟩
+
+/-- Where the two readers differ: concrete files accepted by exactly one of them
+    (P = `container.Parser`, D = `mux.Demuxer`).
+    1. VP8X header without any image chunk: P ok (0 frames; `GetFeatures` rejects it), D `ErrNoImage`.
+    2. odd-sized last chunk without its pad byte: P `ErrTruncated`, D ok.
+    3. ALPH followed by VP8L: P `ErrInvalidChunk`, D ok.
+    4. unknown chunk between ALPH and VP8: P `ErrInvalidChunk`, D ok (skips it).
+    5. VP8X chunk longer than 10 bytes: P `ErrInvalidVP8X`, D ok.
+    6. reserved VP8X flag bit: P `ErrInvalidFlags`, D ok.
+    7. still followed by an ANMF chunk: P ok (stops at the image), D `ErrInvalidANMF`.
+    8. stray top-level VP8 chunk in an animation: P `ErrInvalidChunk`, D ok (ignores it).
+    9. ANMF without preceding ANIM (flag set): P `ErrInvalidChunk`, D ok.
+    10. last chunk cut short: P `ErrTruncated`, D ok (stops walking). -/
+theorem views_differ_examples :
+    ((parse Samples.dFrameless).isOk = true ∧
+      Demux.parseWith true Samples.dFrameless = .err .noImage) ∧
+    (parse Samples.dNoPad = .err .truncated ∧ (Demux.parseWith true Samples.dNoPad).isOk = true) ∧
+    (parse Samples.dAlphVP8L = .err .invalidChunk ∧
+      (Demux.parseWith true Samples.dAlphVP8L).isOk = true) ∧
+    (parse Samples.dAlphJunkVP8 = .err .invalidChunk ∧
+      (Demux.parseWith true Samples.dAlphJunkVP8).isOk = true) ∧
+    (parse Samples.dLongVP8X = .err .invalidVP8X ∧
+      (Demux.parseWith true Samples.dLongVP8X).isOk = true) ∧
+    (parse Samples.dReservedFlag = .err .invalidFlags ∧
+      (Demux.parseWith true Samples.dReservedFlag).isOk = true) ∧
+    ((parse Samples.dStillThenANMF).isOk = true ∧
+      Demux.parseWith true Samples.dStillThenANMF = .err .invalidANMF) ∧
+    (parse Samples.dAnimStrayVP8 = .err .invalidChunk ∧
+      (Demux.parseWith true Samples.dAnimStrayVP8).isOk = true) ∧
+    (parse Samples.dAnmfNoAnim = .err .invalidChunk ∧
+      (Demux.parseWith true Samples.dAnmfNoAnim).isOk = true) ∧
+    (parse Samples.dAnimTruncTail = .err .truncated ∧
+      (Demux.parseWith true Samples.dAnimTruncTail).isOk = true) := by
+  decide +kernel
+
 /-! ### non-vacuity -/
 example : (Config.decodeTarget Samples.extAlphaStill).toOption.map (Option.map (·.model))
     = some (some .nrgba) := by decide +kernel
@@ -100,5 +172,13 @@ example : (Config.getFeatures Samples.simpleVP8).toOption.map (fun f => (f.forma
     = some ("lossy", false) := by decide +kernel
 example : (Config.getFeatures Samples.simpleVP8L).toOption.map (fun f => (f.format, f.width, f.height))
     = some ("lossless", 4, 5) := by decide +kernel
+
+-- both readers accept: an animation, an extended still with metadata around the image
+example : (parse Samples.anim2).isOk = true ∧ (Demux.parseWith true Samples.anim2).isOk = true ∧
+    (parse Samples.extMetaStill).isOk = true ∧
+    (Demux.parseWith true Samples.extMetaStill).isOk = true := by decide +kernel
+example : (Demux.parseWith true Samples.anim2).toOption.map
+    (fun d => (d.features.hasAnimation, d.features.width, d.frames.length, d.loopCount))
+    = some (true, 8, 2, 7) := by decide +kernel
 
 end Webp.Props.C16
